@@ -100,6 +100,12 @@ def frame_cases(prop, seed=0):
             phi = dict(kind=form, d_in=2, d_out=2, r=3 if form == "kraus_nested" else 2, seed=s)
             for fn in ("is_completely_positive", "is_herm_preserving", "is_trace_preserving", "is_unital", "is_quantum_channel", "is_positive", "choi_rank", "is_unitary", "is_extremal"):
                 out.append(_g("toqito.channel_props", fn, [phi], form))
+        # the built-in channels return a fresh Choi matrix / Kraus list on every call (a cached array handed out twice is not)
+        c = lambda v: dict(kind="const", v=v)  # noqa: E731
+        for fn, a, kw in (("depolarizing", [c(3), c(0.3)], {}), ("depolarizing", [c(2)], {}), ("dephasing", [c(3), c(0.25)], {}), ("reduction", [c(3)], {}), ("reduction", [c(3), c(2)], {}), ("choi", [], {}),
+                          ("choi", [c(2), c(1), c(1)], {}), ("amplitude_damping", [], dict(gamma=c(0.3))), ("amplitude_damping", [], dict(gamma=c(0.3), prob=c(0.6))), ("phase_damping", [], dict(gamma=c(0.4))),
+                          ("bitflip", [], dict(prob=c(0.2))), ("pauli_channel", [dict(kind="array", v=[0.1, 0.2, 0.3, 0.4])], {}), ("pauli_channel", [dict(kind="array", v=[0.1, 0.2, 0.3, 0.4])], dict(return_kraus_ops=c(True)))):
+            out.append(_g("toqito.channels", fn, a, "constructor/%d-args%s" % (len(a), "".join("/" + k for k in sorted(kw))), kwargs=kw))
     if prop == "C08":
         prob = dict(kind="array", v=[[0.25, 0.25], [0.125, 0.375]])
         pred = dict(kind="array", v=[[0, 0], [0, 1]])
